@@ -2056,6 +2056,11 @@ lydjson_envelope(struct lyjson_ctx *jsonctx, const char *name, const char *modul
         goto cleanup;
     }
 
+    /* create node, before the parsed name (prefix) is freed by moving to the next token */
+    rc = lyd_create_opaq(jsonctx->ctx, name, strlen(name), prefix, prefix_len, prefix, prefix_len, NULL, 0, NULL,
+            LY_VALUE_JSON, NULL, LYD_VALHINT_STRING, envp);
+    LY_CHECK_GOTO(rc, cleanup);
+
     r = lyjson_ctx_next(jsonctx, &status);
     LY_CHECK_ERR_GOTO(r, rc = r, cleanup);
     if (status != LYJSON_OBJECT) {
@@ -2064,11 +2069,6 @@ lydjson_envelope(struct lyjson_ctx *jsonctx, const char *name, const char *modul
         rc = LY_EVALID;
         goto cleanup;
     }
-
-    /* create node */
-    rc = lyd_create_opaq(jsonctx->ctx, name, strlen(name), prefix, prefix_len, prefix, prefix_len, NULL, 0, NULL,
-            LY_VALUE_JSON, NULL, LYD_VALHINT_STRING, envp);
-    LY_CHECK_GOTO(rc, cleanup);
 
 cleanup:
     if (rc) {
